@@ -309,12 +309,102 @@ def impl(op):
     return show([r for r in recs if r["src"] == "_plot_core" and r["kind"] == "line"])
 
 
+def code_distances(locs):
+    """the great-circle distances (metres) of the real code (verif.location.Location.get_distance): an INPUT of the Lean
+    model (transcendental functions are not modelled)"""
+    import verif.location
+    import verif.util
+    L = [verif.location.Location(l[0], l[1], l[2], l[3]) for l in locs]
+    with np.errstate(all="ignore"):
+        return np.array(verif.util.get_distance_matrix(L), float)
+
+
+def _rows(M):
+    return "|".join(xvec([float(v) for v in r]) for r in M) if len(M) else "-"
+
+
 def lean_op(op):
-    return "diag %s unmodelled" % op.split(" ")[1]
+    """the op line of the Lean model (lean/VerifModel/Driver/DiagramFss.lean): options made explicit, the great-circle
+    distances of the real code and (Auto without -r) the default np.percentile edges added as inputs"""
+    a = op.split(" ")
+    head, name, o, ds = D.dec_op(op)
+    T, L, X = ds.shape
+    dims = "%d,%d,%d" % (T, L, X)
+    ins = [";".join(f for f in s.split(";") if f.split("=")[0] in ("obs", "fcst")) for s in a[4:]]
+    if name == "fss":
+        axis = o.get("x", "location")
+        dist = _rows(code_distances(ds.locs)) if axis != "leadtime" else "-"
+        return " ".join(["diagw", "fss", axis, o.get("b", "above"), xvec(o["r"]) if "r" in o else "-", dims,
+                         xvec(ds.leads), dist] + ins)
+    axis = o.get("x", "location")
+    if axis not in AUTO_AXES:
+        return " ".join(["diagw", name, axis, "0", "-", "def", dims, "-", "-"] + ins)
+    if axis == "location":
+        Dm = code_distances(ds.locs) / 1000
+        vals, dist = "-", _rows(Dm)
+        flat = [float(v) for v in Dm.flatten()]
+    else:
+        k = {"lat": 1, "lon": 2, "elev": 3}.get(axis)
+        v = [l[k] for l in ds.locs] if k else list(ds.leads) if axis == "leadtime" else list(ds.times)
+        vals, dist = xvec(v), "-"
+        flat = [x for r in dist_matrix(ds, axis)[1] for x in r]
+    if "r" in o:
+        edges = list(o["r"])
+    else:
+        x = np.array(flat, float)
+        edges = [float(np.percentile(np.unique(np.sort(x)), p)) for p in np.linspace(0, 100, 21)]
+    return " ".join(["diagw", name, axis, "1" if o.get("simple") else "0", xvec(edges), xvec(o["q"]) if "q" in o else "def",
+                     dims, vals, dist] + ins)
+
+
+def _num_close(g, w, rtol, atol):
+    if _isnan(g) or _isnan(w):
+        return _isnan(g) and _isnan(w)
+    return abs(g - w) <= atol + rtol * max(abs(g), abs(w))
 
 
 def cmp(op, impl_out, model_out):
-    return model_out is None or model_out == "UNMODELLED"
+    """figure read-back of the real code against the Lean model's lines.  Auto: distances 1e-12, statistics 1e-9 relative
+    (+1e-11); labels of the clouds.  Fss: scales exact, scores within 2e-6 (2 - y)/unc + 1e-9 (the code holds the Brier
+    scores / the fractions in float32; unc = o(1-o) is the auxiliary series of the model)"""
+    if model_out is None:
+        return True
+    if impl_out in ("ERR", "-") or model_out in ("ERR", "-") or impl_out.startswith("E") or model_out.startswith("E"):
+        return impl_out == model_out
+    try:
+        got, mod = parse(impl_out), parse(model_out)
+    except (ValueError, IndexError):
+        return False
+    name = op.split(" ")[1]
+    if name == "fss":
+        unc = [m for m in mod if m[1] == "aux"]
+        mod = [m for m in mod if m[1] != "aux"]
+        if len(got) != len(mod) or len(unc) != len(mod):
+            return False
+        for g, m, u in zip(got, mod, unc):
+            if g[0] != m[0] or g[1] != m[1] or g[2] != m[2] or len(g[3]) != len(m[3]) or len(g[4]) != len(m[4]):
+                return False
+            if any(float(a) != float(b) for a, b in zip(g[3], m[3])):
+                return False
+            for a, b, uu in zip(g[4], m[4], u[4]):
+                if _isnan(a) or _isnan(b):
+                    if not (_isnan(a) and _isnan(b)):
+                        return False
+                elif abs(a - b) > 2e-6 * (2 - b) / uu + 1e-9:
+                    return False
+        return True
+    if len(got) != len(mod):
+        return False
+    for g, m in zip(got, mod):
+        if g[0] != m[0] or g[1] != m[1] or len(g[3]) != len(m[3]) or len(g[4]) != len(m[4]):
+            return False
+        if m[2] != "_" and g[2] != m[2]:
+            return False
+        if not all(_num_close(a, b, 1e-12, 1e-12) for a, b in zip(g[3], m[3])):
+            return False
+        if not all(_num_close(a, b, 1e-9, 1e-11) for a, b in zip(g[4], m[4])):
+            return False
+    return True
 
 
 # ------------------------------------------------------------------ the oracle
@@ -556,8 +646,21 @@ def _score(bs, mo):
     return (unc - bs) / unc, 2e-6 * (1 + bs / unc) / unc + 1e-9         # float32 storage of bs in the code
 
 
+def fss_published(pairs):
+    """Roberts & Lean (2008): FSS = 1 - mean((Pf-Po)^2) / (mean(Pf^2) + mean(Po^2)) of the fraction pairs (Po, Pf), exact;
+    NaN when there is no pair or the reference is 0 (no event anywhere)"""
+    if not pairs:
+        return NAN
+    ref = sum(pf * pf for po, pf in pairs) + sum(po * po for po, pf in pairs)
+    if ref == 0:
+        return NAN
+    return 1 - sum((pf - po) ** 2 for po, pf in pairs) / ref
+
+
 def want_fss(ds, o):
-    """-> "ERR" | (x, [per input [(value, tolerance) | None (not defined by the documentation)]])
+    """-> "ERR" | (x, [per input [(value, tolerance) | None (not defined by the documentation)]], [per input [published FSS]])
+    The third list: the fractions skill score of Roberts & Lean (2008) of the SAME neighbourhood / window fractions (all
+    counting neighbourhoods pooled).
     Fractions skill score as the class states it: per scale, the fraction of observed and of forecast events (threshold -r,
     event type -b) in neighbourhoods of that scale, and from the fractions the Brier skill score against the uncertainty
     of the mean observed fraction."""
@@ -569,6 +672,7 @@ def want_fss(ds, o):
     T, L, X = ds.shape
     V = valid_mask(ds)
     res = []
+    pub = []
     if axis == "leadtime":
         lt = list(ds.leads)
         scales = sorted(set(abs(a - c) for a in lt for c in lt))
@@ -579,10 +683,13 @@ def want_fss(ds, o):
         ob = [[[event(b, r[0], ds.inputs[f]["obs"][t, l, x]) if V[t, l, x] else None for x in range(X)] for l in range(L)] for t in range(T)]
         fc = [[[event(b, r[0], ds.inputs[f]["fcst"][t, l, x]) if V[t, l, x] else None for x in range(X)] for l in range(L)] for t in range(T)]
         ys = []
+        rl = []
         for s in scales:
+            pairs = []
             if axis == "leadtime":
                 if s == 0:
                     ys.append((NAN, None))
+                    rl.append(None)
                     continue
                 e2, fo = [], []
                 for a in range(L):
@@ -598,7 +705,9 @@ def want_fss(ds, o):
                                 pf = Fraction(sum(fc[t][l][x] for l in ls), len(ls))
                                 e2.append((po - pf) ** 2)
                                 fo.append(po)
+                                pairs.append((po, pf))
                 ys.append(_score(_mean(e2), _mean(fo)) if e2 else (NAN, None))
+                rl.append(fss_published(pairs))
             else:
                 bss, mos = [], []
                 undefined = False
@@ -619,6 +728,7 @@ def want_fss(ds, o):
                             pf = Fraction(sum(fc[t][l][j] for j in js), len(js))
                             e2.append((po - pf) ** 2)
                             fo.append(po)
+                            pairs.append((po, pf))
                     if not e2:
                         undefined = True         # a neighbourhood without any valid case next to others that have some: its share is not documented
                         continue
@@ -628,8 +738,10 @@ def want_fss(ds, o):
                     ys.append(None)          # the code draws NaN there (np.nanmean of an all-NaN neighbourhood enters the sum of obs fractions)
                 else:
                     ys.append(_score(_mean(bss), _mean(mos)) if bss else (NAN, None))
+                rl.append(fss_published(pairs))
         res.append(ys)
-    return list(scales), res
+        pub.append(rl)
+    return list(scales), res, pub
 
 
 def judge_fss(name, o, ds, got, a2):
@@ -643,7 +755,7 @@ def judge_fss(name, o, ds, got, a2):
         return "ERR"
     if got == "ERR":
         return (dict(sig, kind="error"), "-m fss %s ended in an error, expected a figure" % a2)
-    x, res = want
+    x, res, pub = want
     F = len(ds.inputs)
     if len(got) != F:
         return (dict(sig, kind="series"), "-m fss %s: %d lines drawn, expected one per input (%d)" % (a2, len(got), F))
@@ -667,6 +779,22 @@ def judge_fss(name, o, ds, got, a2):
                 return (dict(sig, kind="fss-value"),
                         "-m fss %s input %d: scale %s drawn %.9g, the Brier skill score of the neighbourhood fractions (event %s %s) is %s" %
                         (a2, f, xr(x[i]), gv, o.get("b", "above"), xr(o["r"][0]), "nan" if _isnan(v) else "%.9g = %s" % (float(v), v)))
+    # every drawn value is the class-text Brier skill score; is it also the PUBLISHED fractions skill score (Roberts & Lean 2008)
+    # that the name, the help text and the axis label announce?  (known finding fss-not-roberts-lean)
+    for f in range(F):
+        for i, w in enumerate(res[f]):
+            p = pub[f][i] if i < len(pub[f]) else None
+            if w is None or p is None:
+                continue
+            gv = got[f][4][i]
+            tol = (w[1] or 1e-9) + 1e-6
+            same = (_isnan(gv) and _isnan(p)) if (_isnan(gv) or _isnan(p)) else abs(gv - float(p)) <= tol
+            if not same:
+                STATS["fss.not-roberts-lean"] += 1
+                return (dict(sig, kind="not-roberts-lean"),
+                        "-m fss %s input %d: scale %s drawn %.9g (the Brier skill score of the fractions against o(1-o)), the fractions "
+                        "skill score of Roberts & Lean 2008, 1 - mean((Pf-Po)^2)/(mean(Pf^2)+mean(Po^2)), of the same fractions is %s" %
+                        (a2, f, xr(x[i]), gv, "nan" if _isnan(p) else "%.9g = %s" % (float(p), p)))
     return None
 
 
@@ -727,8 +855,41 @@ ASSUMPTIONS_TEXT = (
     "from the class attributes; a scale at which some qualifying neighbourhood has no valid case at all while others have some is not judged (the code draws "
     "NaN there; JUDGE_EMPTY_NEIGHBOURHOOD = True would expect the score of the neighbourhoods that have data); tolerance "
     "2e-6 (1 + BS/unc)/unc because the code stores the Brier scores in float32.")
+THEOREMS = {"Proofs.C16Fss": ["VerifModel.C16." + t for t in [
+    "C16_fss_skill_eq_bss", "C16_fss_le_one", "C16_fss_perfect", "C16_fss_roberts_lean_bounds", "C16_fss_roberts_lean_partial",
+    "C16_fss_roberts_lean_perfect", "C16_auto_bins_partition", "C16_auto_bins_outside", "C16_autocov_symm", "C16_fss_fracs_range", "C16_fss_spatial_eq_bss", "C16_fss_temporal_eq_bss",
+    "C16_autocov_eq_spec", "C16_autocov_pair_eq_spec", "C16_autocorr_sq_le", "C16_autocorr_range", "C16_fss_neighbourhood_mem", "C16_fss_neighbourhood_mono", "C16_fss_windows_mem",
+    "C16_fss_windows_unique", "C16_auto_lines"]]}
+TRUSTED_TEXT = (
+    "Model/DiagramFss.lean is hand-written from Fss._get_x_y and Auto._plot_core (commit c94a168) and tied to the code by the "
+    "streams diag.fss / diag.auto (every drawn line read back from the figure against the model's lines: Auto distances 1e-12, "
+    "statistics 1e-9; Fss scales exact, scores within 2e-6 (2 - y)/unc + 1e-9 because the code keeps the Brier scores / the "
+    "fractions in float32).  INPUTS of the model taken from the real code, not modelled: the great-circle distance matrix "
+    "(verif.location.Location.get_distance via verif.util.get_distance_matrix, transcendental) and, for Auto without -r, the default "
+    "bin edges np.percentile(np.unique(distances), 0:5:100); np.sqrt of np.corrcoef is the driver's Float sqrt.  Spec/DiagramFss.lean: "
+    "my reading of Roberts & Lean (2008) eq. 5-7 (FSS), of the class text of verif.output.Fss (Brier skill score of the fractions) and "
+    "the sample covariance with divisor n-1")
 LEVEL_TEXT_ADD = (
-    "autocorr, autocov, fss: implementation-side oracle only (no Lean model; the driver answers UNMODELLED).  Checked on every op: "
+    "autocorr, autocov, fss: Lean model (Model/DiagramFss.lean: Fss spatial and temporal branch incl. the neighbourhoods without "
+    "a valid case, the scales, the refused option sets; Auto: pairing of the slices of -x location/lat/lon/elev/leadtime/time, "
+    "covariance n-1 / corrcoef over the common valid cases, cloud, binned quantile lines, zero point) compared with every drawn line "
+    "on every op; proved (Proofs/C16Fss.lean): the drawn Fss value is the Brier skill score 1 - BS/(o(1-o)) of the class text for every "
+    "base rate in [0,1] (C16_fss_skill_eq_bss), is <= 1 (C16_fss_le_one) and = 1 for a perfect forecast (C16_fss_perfect); the "
+    "published Roberts-Lean score lies in [0,1] and is 1 for a perfect forecast (C16_fss_roberts_lean_bounds, _perfect); the code's "
+    "value is NOT the Roberts-Lean score and can be negative (C16_fss_roberts_lean_partial: kernel-checked witnesses; known finding "
+    "fss-not-roberts-lean: the oracle computes the published score of the same fractions in exact rationals and reports every drawn "
+    "value that differs from it with signature kind=not-roberts-lean, AFTER the class-text check, whose failures keep kind=fss-value "
+    "and stay unlisted); every cloud pair with first edge <= distance "
+    "<= last edge is in exactly one bin of the quantile lines, the others in none (C16_auto_bins_partition, _outside); autocov is "
+    "symmetric in the pair (C16_autocov_symm) and equals the sample covariance of the definition (computational form, divisor n-1) "
+    "of the two error series over their common cases, NaN below two (C16_autocov_eq_spec, _pair_eq_spec); the whole spatial and "
+    "temporal score functions equal the Brier skill score of the class text for ALL inputs (C16_fss_spatial_eq_bss, "
+    "C16_fss_temporal_eq_bss, using that fractions lie in [0,1]: C16_fss_fracs_range); Cauchy-Schwarz cov^2 <= var var for the "
+    "quotient np.corrcoef forms (C16_autocorr_sq_le: with exact roots |r| <= 1 before the clipping) and the drawn autocorr value is "
+    "in [-1,1] (C16_autocorr_range, by np.corrcoef's clipping which the model mirrors).  The neighbourhood of a location at a scale is exactly the set of locations with "
+    "distance < 1000 scale and grows with the scale (C16_fss_neighbourhood_mem, _mono).  The temporal windows of a scale are exactly the ordered "
+    "pairs of lead times with that difference, so a pair belongs to one scale only (C16_fss_windows_mem, _unique).  Auto draws per input the cloud (labelled with the input, x = all N*N distances) alone under "
+    "-simple, else cloud + one line per quantile level + zero point (C16_auto_lines).  In addition the implementation-side oracle.  Checked on every op: "
     "the set and order of drawn lines; for Auto every one of the N*N pair points (distance by the definition of the axis; covariance "
     "with divisor n-1 in exact rationals / correlation from the exact r^2, of obs - fcst over the cases valid in every input and "
     "present in both slices; NaN below 2 common cases or for a constant series), the zero point, every quantile line (exact for "
